@@ -788,13 +788,15 @@ def _inspector(rng, run, cfg):
             if dyn and rng.chance(0.3):
                 t0 = rng.randint(0, 3)
                 op = {"op": k, "what": "scenario", "focus": rng.pick(dyn), "times": [t0, t0 + 1, t0 + 2][: rng.randint(2, 3)]}
-        elif k == "export" and n_exp < cfg["max_export"]:
+        elif k == "export" and n_exp < max(cfg["max_export"], 4):
             n_exp += 1
             fmt = rng.pick(["xml", "pb"])
             op = {"op": k, "fmt": fmt, "n": n_exp, "prec": rng.randint(1, 10), "validate": rng.chance(0.3),
                   "method": rng.pick(["full", "full", "scenario"]), "persistent": rng.chance(0.35)}
             r = rng.random()
-            if r < cfg["p_bad"]:
+            if r < cfg["p_bad"] or (op["persistent"] and r < 0.3):
+                # (long-lived writers meet refused exports often: what a failed export leaves in the writer shows in
+                # its NEXT export)
                 op["fault"] = {"nodir": True}
             elif r < 2 * cfg["p_bad"] and fmt == "pb":
                 op["fault"] = {"ioerr": rng.pick([0, 10, 500])}
